@@ -826,6 +826,11 @@ def donor_for(g: L.G, P: Any, p: S.Prop, misfit: bool = False) -> dict:
         except Exception:  # noqa: BLE001
             pass
     d = D.make(kind, g, indent=ind)
+    if kind in ('BLOCK_COMMENT', 'BLOCK_COMMENT_IND', 'TAG', 'LINK', 'CURRENCY', 'ESCAPED_STRING', 'ACCOUNT') and g.p(0.15):
+        try:
+            d['first'] = D.make(kind, g, indent=ind)['t']   # edited while free, then inserted
+        except Exception:  # noqa: BLE001
+            pass
     if p.name == 'raw_values' and d['t'][:1] in '+-':
         d['t'] = '(' + d['t'] + ')' if d['k'] == 'number_expr' else d['t']
         if d['k'] == 'amount' and d['t'][:1] in '+-':
